@@ -246,6 +246,8 @@ def _probes(st, inv, rec, oc, win, events, world):
     if entry == 'template_input':
         if oc[0] == 'returned':
             hit('template_input_success')
+            if inv['par']['variant'] != 'valid':
+                hit('template_input_success_' + inv['par']['variant'])
             for v in ('RUN2D', 'RUN1D'):
                 if inv['env'].get(v) is None:
                     hit('success_with_%s_unset' % v)
